@@ -145,11 +145,14 @@ class SatTarget(object):
         return 0, None
 
 
-def satdisk(chk):
+def satdisk(chk, mini=False):
+    """mini: one exhaustive configuration, a spread of its behaviours, no simulation (used by harness.selftest)"""
     from ..core import bindings
     ev = chk.ev
     beh = []
     cfgs = ["MC_SatDisk_iscsi.cfg", "MC_SatDisk_sgio.cfg", "MC_SatDiskS_iscsi.cfg", "MC_SatDiskS_sgio.cfg"]
+    if mini:
+        cfgs = cfgs[:2]
     for cfg in cfgs:
         r = tlc.run("SatDisk", cfg, workers=8, timeout=1800, coverage=cfg.startswith("MC_SatDisk_"), name="c13sat")
         if not r.ok:
@@ -164,12 +167,14 @@ def satdisk(chk):
             b = random.Random(chk.seed).sample(b, 500)         # every behaviour in the thorough tier
         beh += b
         r.prints = []
-    for cfg in ("Sim_SatDisk_iscsi.cfg", "Sim_SatDisk_sgio.cfg"):
+    for cfg in (() if mini else ("Sim_SatDisk_iscsi.cfg", "Sim_SatDisk_sgio.cfg")):
         rs = tlc.run("SatDisk", cfg, workers=1, timeout=1800, name="c13satsim", simulate="num=%d" % (40 if chk.quick else 3000),
                      extra=["-depth", "40", "-seed", str(chk.seed + 29)])
         if rs.violated:
             raise tlc.TLCFailure("SatDisk.tla (simulation) violated %s" % rs.violated)
         beh += [v for t, v in rs.prints if t == "SATDISK"]
+    if mini:
+        beh = beh[::max(1, len(beh) // 160)]
     fs, fi = bindings.install(True, True)
     d = bindings.shm_dir("c13a")
     path = os.path.join(d, "sg3")
